@@ -127,6 +127,8 @@ pub fn install_panic_hook() {
             s.to_string()
         } else if let Some(s) = info.payload().downcast_ref::<String>() {
             s.clone()
+        } else if let Some(i) = info.payload().downcast_ref::<crate::world::Inconclusive>() {
+            format!("inconclusive: {}", i.0)
         } else {
             "<non-string panic payload>".to_string()
         };
